@@ -46,11 +46,16 @@ func init() {
 		Mutant{Prop: "C02", Name: "precommit-sent-before-save", File: fSM, Func: "StateMachine.recordPrecommit",
 			Find: `(?s)(\tif err := m\.aStore\.SavePrecommitAction\(.*?return false\n\t\}\n)(.*?)(\trlc\.OutgoingActionsCh <- tmeil\.StateMachineRoundAction\{.*?\n\t\}\n)`, Repl: "$3$2$1", Expect: []string{"C02.2"}},
 
+		Mutant{Prop: "C02", Name: "round-entrance-reuses-actions-channel", File: fSM, Func: "StateMachine.advance",
+			Find: `re\.Actions = make\(chan tmeil\.StateMachineRoundAction, 3\)`, Repl: "re.Actions = rlc.OutgoingActionsCh\n\t\tif re.Actions == nil {\n\t\t\tre.Actions = make(chan tmeil.StateMachineRoundAction, 3)\n\t\t}", Expect: []string{"C02.9"}},
+
 		// ---- C04 / C10
 		Mutant{Prop: "C04", Name: "shift-skips-a-height", File: fKState, Func: "kState.ShiftVotingToCommitting",
 			Find: `newHeight := s\.Voting\.Height \+ 1`, Repl: `newHeight := s.Voting.Height + 2`, Expect: []string{"C04.1", "C04.2"}},
 		Mutant{Prop: "C04", Name: "position-saved-with-swapped-arguments", File: fKernel, Func: "Kernel.updateObservers",
 			Find: `s\.Voting\.Height, s\.Voting\.Round,\n\t\ts\.Committing\.Height, s\.Committing\.Round,\n\t\); err`, Repl: "s.Committing.Height, s.Committing.Round,\n\t\ts.Voting.Height, s.Voting.Round,\n\t); err", Expect: []string{"C04.3"}},
+		Mutant{Prop: "C04", Name: "mirror-store-refuses-lower-round-at-any-height", File: "tm/tmstore/tmmemstore/mirrorstore.go", Func: "MirrorStore.SetNetworkHeightRound",
+			Find: `(\ts\.votingHeight = votingHeight\n)`, Repl: "\tif committingHeight >= s.committingHeight && committingRound < s.committingRound {\n\t\treturn tmstore.ErrStoreUninitialized\n\t}\n$1", Expect: []string{"C04.3"}},
 		Mutant{Prop: "C10", Name: "position-persisted-before-header", File: fKernel, Func: "Kernel.checkVotingPrecommitViewShift",
 			Find: `(?s)(\tif err := k\.saveCurrentCommittingHeader\(ctx, s\); err != nil \{.*?\n\t\}\n)\n(\tif err := k\.updateObservers\(ctx, s\); err != nil \{\n\t\treturn err\n\t\}\n)`, Repl: "$2\n$1", Expect: []string{"C10.1"}},
 		Mutant{Prop: "C04", Name: "position-persisted-before-header", File: fKernel, Func: "Kernel.checkVotingPrecommitViewShift",
@@ -70,6 +75,8 @@ func init() {
 		// ---- C06
 		Mutant{Prop: "C06", Name: "precommit-total-counts-per-target", File: fVS, Func: "VoteSummary.SetPrecommitPowers",
 			Find: `if !counted\.Test\(i\) \{`, Repl: "if valPow > 0 || !counted.Test(i) {", Expect: []string{"C06.1"}},
+		Mutant{Prop: "C06", Name: "counted-set-forgets-earlier-targets", File: fVS, Func: "VoteSummary.SetPrevotePowers",
+			Find: `(?s)(if !counted\.Test\(i\) \{\n)\t\t\t\tcounted\.Set\(i\)\n(.*?blockPow \+= valPow\n\t\t\})`, Repl: "${1}${2}\n\t\tbs.CopyFull(&counted)", Expect: []string{"C06.1"}},
 		Mutant{Prop: "C06", Name: "most-voted-tie-depends-on-map-order", File: fVS, Func: "VoteSummary.SetPrevotePowers",
 			Find: `if blockPow == maxPow \{\n\t\t\tmaxHash = min\(maxHash, blockHash\)\n\t\t\} else if blockPow > maxPow \{`, Repl: "if blockPow > maxPow {", Expect: []string{"C06.2"}},
 		Mutant{Prop: "C06", Name: "prevote-applied-without-recomputing-summary", File: fKernel, Func: "Kernel.addPrevote",
